@@ -5,7 +5,7 @@ Line-protocol driver for C16 (no hidden state between calls).  One scenario per 
   coef ::= u | s <rat> | a <id>
   op   ::= jc i h data | ju i dim? coef? coef? | mc i data | mu i dim? coef? coef?
          | h1 sref mu omega dim channels data | sb sref ell omega dim iters data
-         | an i <list data> | di i bregman data iters
+         | an i <list data> | di i kind data iters   (kind: 0 Newton, 1 Bregman, k>=2 adaptive Bregman, update when (iter+1) % k == 0)
   sref ::= d | j i | m i            (optional values: `none` or the value)
 Response, per operation k (joined by " ; "):
   eq|ne  — whether the result after the whole prefix equals the result after only the parameter-setting
@@ -60,7 +60,7 @@ def pOp : P Op := do
     let s ← pSref; let ell ← pCoef; let om ← pCoef; let dim ← P.nat; let it ← P.nat; let d ← P.nat
     pure (.sb s ell om dim it d)
   else if t = "an" then do let i ← P.nat; let ds ← P.list P.nat; pure (.anderson i ds)
-  else if t = "di" then do let i ← P.nat; let b ← P.bool; let d ← P.nat; let it ← P.nat; pure (.distance i b d it)
+  else if t = "di" then do let i ← P.nat; let b ← P.nat; let d ← P.nat; let it ← P.nat; pure (.distance i b d it)
   else failure
 
 def showCoef : Coef → String
@@ -144,14 +144,12 @@ def traceOut (w0 : World) (op : Op) : Out → String
       | _ => "?"
     " ".intercalate (u :: (rs.flatMap fun es => es.map tEvent))
   | .aa rs =>
-    match op with
-    | .anderson i _ =>
-      match w0.aas[i]? with
-      | some a => " ".intercalate ((List.range rs.length).map fun k =>
-          let t := a.trace k
-          s!"A({k};{if t.1 then 1 else 0};{t.2})")
-      | none => "?"
-    | _ => "?"
+    -- rendered from the RECORD: per call the number of mixed columns and which of them are zero columns
+    " ".intercalate (rs.zipIdx.map fun (r, k) =>
+      match r with
+      | .plain _ => s!"A({k};0;)"
+      | .mixed _ cols => s!"A({k};{cols.length};" ++ String.join (cols.map fun c => match c with | .zero => "z" | .diff .. => "d") ++ ")"
+      | .attributeError => s!"A({k};!)")
   | .dist ss => " ".intercalate (ss.map fun s => if s.2.2 then "L(S)" else "L(R)")
   | .none =>
     match op with
